@@ -288,6 +288,30 @@ structure St where
   failed : Bool := false
   /-- a divergence seen on a line that also carried a monitor failure; reported on the next line -/
   owed : Option (String × String) := none
+  /-- ids whose QoS 2 flow is open BY THE PROTOCOL, whatever the client did: a PUBREC with a reason
+      below 0x80 arrived for an unacknowledged id and no PUBCOMP since (reset with the connection).
+      `Ghost.rels` records an id only once the client itself wrote the PUBREL; a client that wrongly
+      treats such a PUBREC as a refusal would otherwise be judged by its own account -/
+  specRels : List Nat := []
+
+/-- protocol-level bookkeeping of open QoS 2 flows, from the incoming packets only -/
+def specRelsStep (g : Ghost) (l : List Nat) (o : Obs) : List Nat :=
+  match o.op with
+  | .inc (.pubrec i r) => if (alookup g.unacked i).isSome && decide (r < 128) then addRel l i else l
+  | .inc (.pubcomp i _) => l.filter (· != i)
+  | .clean => (match o.outcome with | .ok _ => [] | _ => l)
+  | _ => l
+
+/-- C07 clause 2 at protocol level: the client puts a PUBLISH on the wire under an id whose QoS 2
+    flow is still open (PUBREC accepted by the broker, PUBCOMP not yet received) -/
+def specReuse (g' : Ghost) (l' : List Nat) (o : Obs) : Option (String × String) :=
+  if !g'.gated then none else
+  match o.outcome with
+  | .ok (some (.publish q)) =>
+    if q.qos != 0 && l'.contains q.pkid then
+      some ("c07-dup-id", s!"dup=reused-while-awaiting-pubcomp(protocol-level: PUBREC with a reason below 0x80 keeps the flow open) id={q.pkid} awaiting-comp={l'}")
+    else none
+  | _ => none
 
 def checksFor (focus : List String) : List Check :=
   (if focus.contains "C07" then [C07.checks] else []) ++
@@ -329,11 +353,14 @@ def step (wrong : Bool) (focus : List String) (σ : St) (op : List String) (out 
     | some io =>
       let g' := σ.g.step io
       let d' := σ.d.step σ.g io g'
+      let rels' := specRelsStep σ.g σ.specRels io
       let fails := if σ.failed then [] else (checksFor focus).filterMap (fun c => c σ.g σ.d io g' d')
+      let fails := if σ.failed || !fails.isEmpty || !focus.contains "C07" then fails else
+        (match specReuse g' rels' io with | some f => [f] | none => [])
       let dead := io.outcome == .panic
       let newDiv : Option (String × String) :=
         if same || σ.diverged then none else some (mstr, out)
-      let σ' : St := { st := some s', g := g', d := d', dead, diverged := σ.diverged || !same, owed := none, failed := σ.failed || !fails.isEmpty }
+      let σ' : St := { st := some s', g := g', d := d', dead, diverged := σ.diverged || !same, owed := none, failed := σ.failed || !fails.isEmpty, specRels := rels' }
       match fails with
       | (tag, d) :: _ =>
         ({ σ' with owed := match newDiv with | some x => some x | none => σ.owed }, .monitorFail tag d)
